@@ -302,6 +302,9 @@ c.modifies("G.sem_rel", "G.sem_acq", "G.sem_val")
 S.contracts["_SemLock._count"].event("count", "self", "result")
 i = M.invariant("Condition.wait", 0, "for _ in range(count):")
 i.inv("released-so-far", f"G.sem_rel[{LK}] == at_entry(G.sem_rel[{LK}]) + __i0")
+# a waiter must be counted as sleeping *before* it lets go of the lock: a notifier that gets the lock in between would otherwise see no sleeper and hand out no
+# wake-up (lost wake-up: "every waiter that has not timed out is woken by a later notify_all")
+i.inv("registered-as-a-sleeper-before-the-lock-is-released", f"G.sem_rel[{SL}] == old(G.sem_rel[{SL}]) + 1")
 i.inv("others-untouched", f"G.sem_rel[{SL}] == at_entry(G.sem_rel[{SL}]) and G.sem_rel[{WK}] == at_entry(G.sem_rel[{WK}]) and G.sem_acq == at_entry(G.sem_acq)")
 i = M.invariant("Condition.wait", 1, "for _ in range(count):")
 i.inv("reacquired-so-far", f"G.sem_acq[{LK}] == at_entry(G.sem_acq[{LK}]) + __i1")
